@@ -446,3 +446,31 @@ def base_cases():
                          ("sorted_both", {"name": True, "value": True})):
             cases.append(BaseCase("%s_%s" % (cid, sname), d, C.Bundle(cid, {"sorted": par, "as_str": None}), ""))
     return cases
+
+
+class BigCase(BaseCase):
+    """65534 variants (the documented maximum): compile observation only, lean module text"""
+
+    def __init__(self):
+        self.cid = "max_variants_65534"
+        self.name = "bc_" + self.cid
+        self.harnesses = []
+        self.touch = ""
+        self.doc = "src/lib.rs: at most u16::MAX-1 items"
+        n = 65534
+        self.decl = C.mk("k6_65534", "u16", range(0, n), "K6", order="sorted", implicit="max")
+        self.bundle = C.Bundle("big", {"MIN": None, "MAX": None, "into": None, "try_from": None, "next": None})
+
+    def header(self):
+        d = self.decl
+        return ("// generated: the documented maximum of 65534 variants\n"
+                "#![allow(dead_code)]\nuse enum_tools::EnumTools;\n" + d.rust_enum(self.bundle.attr_lines()) + "\n"
+                "pub fn touch() {\n    assert!(E::MAX as u16 == 65533 && E::MIN as u16 == 0);\n"
+                "    assert!(E::try_from(65533).is_some() && E::try_from(65534).is_none());\n}\n")
+
+    def text(self, drop_sub=False):
+        return self.header()
+
+
+def c11_base_cases():
+    return [BigCase()]
